@@ -72,6 +72,7 @@ func entropySimple(length int, nelem int) FloatE {
 //
 // Based on Int31n from the math/rand package..
 func randomUint32n(n uint32) uint32 {
+	verifNoteDraw(n)
 	if n < 1 {
 		panic("randomUint32n called with 0")
 	}
